@@ -123,6 +123,17 @@ def make_rebindable(c):
     return inner, rebind
 
 
+def make_counter(c):
+    """a callable with state of its own which it changes when called: every decode of the
+    encoded function starts from the encoded state"""
+    seen = [c]
+
+    def inner(x):
+        seen.append(x)
+        return [len(seen), seen[0]]
+    return inner
+
+
 def make_nested(c0, c1):
     def outer(x):
         def innermost(y):
@@ -192,6 +203,7 @@ POOL = [
     ('mutates_arg',     lambda n, a: m_append,                        (2, 2), [],                  'lst', False),
     ('rich_result',     lambda n, a: m_types,                         (1, 1), [],                  'any', False),
     ('closure_nested',  lambda n, a: make_nested(n, a),               (1, 1), [],                  'any', False),
+    ('closure_counter', lambda n, a: make_counter(a),                 (1, 1), [],                  'any', True),
     ('closure_rebound', lambda n, a: make_rebindable(n),              (1, 1), [],                  'any', True),
     ('unpicklable',     lambda n, a: _unpicklable(),                  (0, 0), [],                  'any', False),
 ]
@@ -448,6 +460,19 @@ def run_fn(case, res):
     elif want[0] == 'value' and not same(want[1], got[1]):
         res.fail('fn_result_differs:%s:%s' % (sigvia, name),
                  'args=%r kwargs=%r: wanted %r, got %r' % (args, kwargs, want[1], got[1]))
+    elif name == 'closure_counter' and want[0] == 'value':
+        # the same encoded function is decoded and applied once more (a second task of a bulk, a
+        # retry): it starts from the encoded state again
+        res.label('fn:decoded_twice')
+        try:
+            out, err, ret, val, exc = dispatch(enc)
+        except Exception as e:                                      # noqa
+            res.fail(exc_sig('fn_dispatch_raised:%s:second_decode' % sigvia, e), repr(e))
+            return
+        if ret != 0 or not same(want[1], val):
+            res.fail('fn_result_differs:%s:second_decode' % sigvia,
+                     'first application gave %r, the second one of the same encoded function %r '
+                     '(ret %r)' % (got[1], val, ret))
 
 
 def run_obj(case, res):
